@@ -193,6 +193,21 @@ func c14History(r *report.R, id string) {
 		}
 		_ = slashedAny
 		r.Count("begin_block_windows", 1)
+		// ---- governance switches: transfers of a denomination (or the default) disabled / enabled ----
+		if rng.Intn(12) == 0 {
+			d := []string{vn.Denom, "uother"}[rng.Intn(2)]
+			if rng.Intn(4) == 0 {
+				p := n.App.BankKeeper.GetParams(n.Ctx())
+				p.DefaultSendEnabled = !p.DefaultSendEnabled
+				_ = n.App.BankKeeper.SetParams(n.Ctx(), p)
+				trace = append(trace, fmt.Sprintf("h=%d default_send_enabled -> %v", n.Height, p.DefaultSendEnabled))
+			} else {
+				on := n.App.BankKeeper.IsSendEnabledDenom(n.Ctx(), d)
+				n.App.BankKeeper.SetSendEnabled(n.Ctx(), d, !on)
+				trace = append(trace, fmt.Sprintf("h=%d send_enabled(%s) -> %v", n.Height, d, !on))
+			}
+			r.Count("send_enabled_toggles", 1)
+		}
 		// ---- transactions ----
 		for k := 0; k < rng.Intn(5); k++ {
 			a := n.Accounts[rng.Intn(len(n.Accounts))]
